@@ -1221,3 +1221,13 @@ Proof.
   intros b64enc b64dec loads d md H1 H2 H. destruct (load_fixpoint b64enc b64dec loads d md H1 H2 H) as [d' [E1 E2]].
   exists d', md. repeat split; assumption.
 Qed.
+
+(** the strict loader only returns payloads that have canonical bytes *)
+Theorem loaded_is_signable : forall d p, read_payload_s d = Ok p ->
+  read_payload d = Ok p /\ exists msg, signable_bytes (payload_asdict p) = Ok msg.
+Proof.
+  intros d p H. unfold read_payload_s, check_signable in H.
+  destruct (read_payload d) as [p'|]; cbn [bind] in H; [|discriminate H].
+  destruct (signable_bytes (payload_asdict p')) as [msg|] eqn:E; cbn [bind] in H; [|discriminate H].
+  inversion H; subst p'. split; [reflexivity|]. exists msg. exact E.
+Qed.
